@@ -130,8 +130,8 @@ Qed.
 Lemma settle_ctl touched sv : ctl_inv sv -> ctl_inv (settle touched sv).
 Proof.
   intros I. unfold settle.
-  pose proof (settle_subs_evolve (sv_now sv) touched (sv_subs sv) (sv_streams sv)) as F.
-  destruct (settle_subs (sv_now sv) touched (sv_subs sv) (sv_streams sv)) as [ss sts]. simpl in F.
+  pose proof (settle_subs_evolve (sv_now sv) touched (sv_subs sv) (sv_cons sv)) as F.
+  destruct (settle_subs (sv_now sv) touched (sv_subs sv) (sv_cons sv)) as [ss sts]. simpl in F.
   apply (ctl_inv_ext sv); auto. simpl. apply forall2_evolves_skel. exact F.
 Qed.
 
@@ -307,7 +307,7 @@ Lemma create_topic_ctl sv tn :
   ctl_inv {| sv_now := sv_now sv;
              sv_topics := sv_topics sv ++ [{| t_name := tn; t_uid := sv_tnext sv + 1; t_subs := []; t_next_msg := 0 |}];
              sv_tnext := sv_tnext sv + 1; sv_subs := sv_subs sv; sv_snext := sv_snext sv;
-             sv_reg := sv_reg sv; sv_ptnext := sv_ptnext sv; sv_streams := sv_streams sv |}.
+             sv_reg := sv_reg sv; sv_ptnext := sv_ptnext sv; sv_cons := sv_cons sv |}.
 Proof.
   intros [A B C D E F G H I J K] Hf. constructor; simpl; auto.
   - rewrite map_app. simpl. apply sorted_app_one; auto.
@@ -345,7 +345,7 @@ Lemma create_sub_ctl sv t sn ackdl pcfg :
                        | Some e => if amem name_eqb sn (sv_reg sv) then sv_reg sv else sv_reg sv ++ [(sn, e)]
                        | None => sv_reg sv
                        end;
-             sv_ptnext := sv_ptnext sv; sv_streams := sv_streams sv |}.
+             sv_ptnext := sv_ptnext sv; sv_cons := sv_cons sv |}.
 Proof.
   intros [A B C D E F G H I J K] Ht Hf uid.
   assert (Hfresh : ~ In sn (map s_name (sv_subs sv))) by (apply find_sub_none; assumption).
@@ -408,7 +408,7 @@ Lemma delete_sub_ctl sv s :
                             (fun t0 => set_topic_subs t0 (aremove name_eqb (s_name s) (t_subs t0))) (sv_topics sv);
              sv_tnext := sv_tnext sv; sv_subs := del_sub (s_uid s) (sv_subs sv); sv_snext := sv_snext sv;
              sv_reg := aremove name_eqb (s_name s) (sv_reg sv); sv_ptnext := sv_ptnext sv;
-             sv_streams := stream_terminate (fun st => N.eqb (st_sub st) (s_uid s)) NOT_FOUND (sv_streams sv) |}.
+             sv_cons := release_consumers (s_uid s) (sv_cons sv) |}.
 Proof.
   intros [A B C D E F G H I J K] Hs.
   assert (Hdel : forall x, In x (del_sub (s_uid s) (sv_subs sv)) <-> In x (sv_subs sv) /\ x <> s).
@@ -466,6 +466,8 @@ Lemma ext_subs sv ss : map skel ss = map skel (sv_subs sv) -> ctl_inv sv -> ctl_
 Proof. intros E I. apply (ctl_inv_ext sv); auto. Qed.
 Lemma ext_streams sv sts : ctl_inv sv -> ctl_inv (with_streams sv sts).
 Proof. intros I. apply (ctl_inv_ext sv); auto. Qed.
+Lemma ext_cons sv c : ctl_inv sv -> ctl_inv (with_cons sv c).
+Proof. intros I. apply (ctl_inv_ext sv); auto. Qed.
 
 Lemma handle_ctl sv r : ctl_inv sv -> ctl_inv (fst (fst (handle sv r))).
 Proof.
@@ -488,22 +490,25 @@ Proof.
     match goal with H : find_sub _ _ = Some ?s |- _ => apply find_sub_some in H as [Hin Hn] end.
     rewrite <- Hn. apply delete_sub_ctl; assumption.
   - dm; auto.
-  - (* Publish *) dm; auto. apply (ctl_inv_ext_t sv); simpl; auto.
-    + apply upd_topic_tskel. reflexivity.
-    + apply (map_cond_skel (fun s0 => existsb (N.eqb (s_uid s0)) (map snd (t_subs t))) (sub_post _)).
-      intros. apply evolves_post.
+  - (* Publish *) dm; auto;
+      (apply (ctl_inv_ext_t sv); simpl; auto;
+       [apply upd_topic_tskel; reflexivity
+       |apply (map_cond_skel (fun s0 => existsb (N.eqb (s_uid s0)) (map snd (t_subs t))) (sub_post _));
+        intros; apply evolves_post]).
   - (* Pull *) dm; auto. apply ext_subs; auto. apply upd_sub_skel. intros. apply evolves_pull.
   - (* Ack *) dm; auto. apply ext_subs; auto. apply upd_sub_skel. intros. apply evolves_ack.
   - (* Modify *) dm; auto. apply ext_subs; auto. apply upd_sub_skel. intros. apply evolves_modify.
   - (* Advance *) apply (ctl_inv_ext sv); auto.
   - dm; auto.
   - auto.
-  - (* StreamOpen *) dm; auto. apply ext_streams; assumption.
-  - (* StreamSend *) dm; auto; try (apply ext_streams; assumption).
+  - (* StreamOpen *) dm; auto. apply ext_cons; assumption.
+  - (* StreamSend *) dm; auto; try (apply ext_cons; assumption).
     apply ext_subs; auto. apply upd_sub_skel. intros.
     eapply evolves_trans; [apply evolves_ack|apply evolves_modify].
   - (* StreamClose *) apply ext_streams; assumption.
   - (* StreamRead *) dm; auto. apply ext_streams; assumption.
+  - (* PullBg *) dm; auto; apply ext_cons; assumption.
+  - (* Join *) dm; auto. apply ext_cons; assumption.
 Qed.
 
 Lemma init_ctl : ctl_inv init_server.
